@@ -1,0 +1,23 @@
+//go:build verif
+
+package verifhook
+
+import "sync/atomic"
+
+var hook atomic.Pointer[func(string)]
+
+// Set installs (or, with nil, removes) the scheduling hook.
+func Set(f func(string)) {
+	if f == nil {
+		hook.Store(nil)
+		return
+	}
+	hook.Store(&f)
+}
+
+// Point calls the installed hook, if any.
+func Point(id string) {
+	if f := hook.Load(); f != nil {
+		(*f)(id)
+	}
+}
